@@ -8,6 +8,11 @@ A *case* is a JSON-able dict:
   var_order   [index into varfiles ...]   the order in which they are GIVEN (may repeat an index)
   platform    None | name
   klass       structural class key (for distinct counting)
+  streams     {component id: [first index, count]}  repeating components (workflowAttributes.repeatInterval) whose
+              working directory holds the archived stdout/stderr streams <first>..<first+count-1> (what the
+              RepeatingEngine leaves behind: at most 5, contiguous, the oldest pruned) when references are resolved
+  stream_refs [[consumer id, reference string, repeating producer id], ...]  `:output` references WITHOUT a file name
+              to such components, by construction
 Ground truth known by construction: `expected_user_variables(case)` = fold in the given order, last wins.
 Nothing here looks at the repository code.
 """
@@ -93,9 +98,90 @@ def conflicting_variables(case: Dict[str, Any]):
     return sorted((k for k, v in seen.items() if len(v) > 1), key=repr)
 
 
+
+# ----------------------------------------------------------------------------- repeating components + archived streams
+
+OBS_NAMES = ["obs", "observer", "mon3", "watch-a", "Obs", "o"]
+USE_NAMES = ["use-obs", "reader", "tail7", "useobs", "u"]
+DOWN_NAMES = ["down", "after-u", "d2"]
+
+
+def draw_streams(r: random.Random) -> List[int]:
+    """[first index, count]: what archive_stream(max_files=5) leaves after `first + count` repetitions – contiguous
+    indices, at most 5 files; later windows include two/three digit indices (8..12, 97..101)."""
+    first = r.choice([0, 0, 0, 3, 8, 9, 97])
+    count = r.choice([2, 3, 4, 5, 5]) if first == 0 else 5
+    return [first, count]
+
+
+def add_repeat_family_flowir(r: random.Random, doc: Dict[str, Any], n_stages: int, data_files: List[str]):
+    """Append a repeating observer, 1-2 consumers of `<observer>:output` (no file name) and possibly a component
+    downstream of a consumer.  Returns (streams, stream_refs)."""
+    comps = doc["components"]
+    by_stage: Dict[int, List[str]] = {}
+    for c in comps:
+        by_stage.setdefault(c["stage"], []).append(c["name"])
+    # the whole replicate -> worker -> aggregate chain is left alone (an observer of a replica would replicate itself)
+    replicated = {(c["stage"], c["name"]) for c in comps if c["name"] in ("rsrc", "rwork", "ragg", "r-src", "r-work")}
+    streams: Dict[str, List[int]] = {}
+    stream_refs: List[List[str]] = []
+
+    def fresh(pool, stage):
+        name = r.choice([n for n in pool if n not in by_stage.get(stage, [])])
+        by_stage.setdefault(stage, []).append(name)
+        return name
+
+    for _ in range(r.choice([1, 1, 2])):
+        s_obs = r.randrange(n_stages)
+        obs = fresh(OBS_NAMES, s_obs)
+        oid = "stage%d.%s" % (s_obs, obs)
+        oc: Dict[str, Any] = {"name": obs, "stage": s_obs,
+                              "workflowAttributes": {"repeatInterval": r.choice([1, 2.5, 10])}}
+        oargs, orefs = ["-n"], []
+        # subject of the observer: a plain (not replicating) component of the same stage, an earlier one, or a data file
+        subjects = [c for c in comps if c["stage"] <= s_obs and (c["stage"], c["name"]) not in replicated
+                    and c["name"] != obs and "repeatInterval" not in (c.get("workflowAttributes") or {})
+                    and "aggregate" not in (c.get("workflowAttributes") or {})]
+        if subjects and r.random() < 0.8:
+            sub = r.choice(subjects)
+            ref = "stage%d.%s:ref" % (sub["stage"], sub["name"])
+            orefs.append(ref)
+            oargs.append(ref)
+        elif data_files:
+            ref = "%s:ref" % r.choice(data_files)
+            orefs.append(ref)
+            oargs.append(ref)
+        oc["command"] = {"executable": r.choice(EXES), "arguments": " ".join(oargs)}
+        if orefs:
+            oc["references"] = orefs
+        comps.append(oc)
+        streams[oid] = draw_streams(r)
+        users = []
+        for _u in range(r.choice([1, 1, 2])):
+            s_use = r.choice([s for s in range(s_obs, n_stages)] + [n_stages - 1])
+            use = fresh(USE_NAMES, s_use)
+            ref = "%s:output" % oid
+            if s_use == s_obs and r.random() < 0.4:
+                ref = "%s:output" % obs  # relative spelling
+            args = [r.choice(LITS), ref]
+            r.shuffle(args)
+            comps.append({"name": use, "stage": s_use, "references": [ref],
+                          "command": {"executable": r.choice(EXES), "arguments": " ".join(args)}})
+            stream_refs.append(["stage%d.%s" % (s_use, use), "%s:output" % oid, oid])
+            users.append((s_use, use))
+        if r.random() < 0.6:
+            s_use, use = r.choice(users)
+            s_down = r.choice([s for s in range(s_use, n_stages)])
+            down = fresh(DOWN_NAMES, s_down)
+            ref = "stage%d.%s:ref" % (s_use, use)
+            comps.append({"name": down, "stage": s_down, "references": [ref],
+                          "command": {"executable": "ls", "arguments": ref}})
+    return streams, stream_refs
+
+
 # ----------------------------------------------------------------------------- FlowIR
 
-def gen_flowir(r: random.Random) -> Dict[str, Any]:
+def gen_flowir(r: random.Random, force_repeat: bool = False) -> Dict[str, Any]:
     n_stages = r.choice([1, 2, 2, 3])
     gvars = ["uv%d" % i for i in range(r.choice([2, 3, 4]))]
     svars = ["sv%d" % i for i in range(r.choice([1, 2]))]
@@ -210,9 +296,14 @@ def gen_flowir(r: random.Random) -> Dict[str, Any]:
     varfiles, order = gen_varfiles(r, n_stages, gvars, svars)
     case = {"kind": "flowir", "doc": doc, "files": files, "varfiles": varfiles, "var_order": order,
             "platform": "alt" if (use_alt and r.random() < 0.5) else None}
-    case["klass"] = "flowir:st%d:rep%d:alt%d:vf%d:dupvf%d" % (
+    # repeating components with archived streams: drawn LAST so that everything above stays as it was
+    r2 = random.Random(r.getrandbits(64))
+    case["streams"], case["stream_refs"] = {}, []
+    if force_repeat or r2.random() < 0.4:
+        case["streams"], case["stream_refs"] = add_repeat_family_flowir(r2, doc, n_stages, data_files)
+    case["klass"] = "flowir:st%d:rep%d:alt%d:vf%d:dupvf%d:obs%d" % (
         n_stages, int(any("workflowAttributes" in c and "replicate" in c["workflowAttributes"] for c in comps)),
-        int(case["platform"] is not None), len(varfiles), int(len(order) != len(set(order))))
+        int(case["platform"] is not None), len(varfiles), int(len(order) != len(set(order))), len(case["streams"]))
     return case
 
 
@@ -328,7 +419,7 @@ def gen_dsl(r: random.Random) -> Dict[str, Any]:
 
 # ----------------------------------------------------------------------------- DOSINI
 
-def gen_dosini(r: random.Random) -> Dict[str, Any]:
+def gen_dosini(r: random.Random, force_repeat: bool = False) -> Dict[str, Any]:
     """conf/experiment.conf (+ experiment.<plat>.conf), conf/variables.conf (+ variables.d/<plat>.conf),
     conf/stages.d/stage<N>.conf – discovered by the loader through glob: listing order is the workload."""
     n_stages = r.choice([1, 2, 3])
@@ -378,14 +469,39 @@ def gen_dosini(r: random.Random) -> Dict[str, Any]:
     varfiles, order = gen_varfiles(r, n_stages, gvars, ["sv"])
     case = {"kind": "dosini", "doc": ini, "files": files, "varfiles": varfiles, "var_order": order,
             "platform": r.choice(plats) if (plats and r.random() < 0.6) else None}
-    case["klass"] = "dosini:st%d:plats%d:vf%d:dupvf%d:plat%d" % (
-        n_stages, len(plats), len(varfiles), int(len(order) != len(set(order))), int(case["platform"] is not None))
+    # a repeating component (repeat-interval) + a consumer of its stdout, drawn LAST
+    r2 = random.Random(r.getrandbits(64))
+    case["streams"], case["stream_refs"] = {}, []
+    if force_repeat or r2.random() < 0.4:
+        s_obs = r2.randrange(n_stages)
+        s_use = r2.choice(list(range(s_obs, n_stages)))
+        obs, use = r2.choice(["Obs", "Mon3", "Watch"]), r2.choice(["Reader", "UseObs", "Tail7"])
+        oopts = [["executable", "echo"], ["repeat-interval", str(r2.choice([1, 2.5, 10]))]]
+        same = [p.split(".", 1)[1] for p in prior if p.startswith("stage%d." % s_obs)]
+        if same and r2.random() < 0.7:
+            sub = r2.choice(same)
+            oopts += [["arguments", "-n %s:ref" % sub], ["references", "%s:ref" % sub]]
+        else:
+            oopts += [["arguments", "-n data/in.txt:ref"], ["references", "data/in.txt:ref"]]
+        ini["conf/stages.d/stage%d.conf" % s_obs].append([obs, oopts])
+        ref = "stage%d.%s:output" % (s_obs, obs)
+        ini["conf/stages.d/stage%d.conf" % s_use].append(
+            [use, [["executable", "echo"], ["arguments", "x %s" % ref], ["references", ref]]])
+        case["streams"]["stage%d.%s" % (s_obs, obs)] = draw_streams(r2)
+        case["stream_refs"].append(["stage%d.%s" % (s_use, use), ref, "stage%d.%s" % (s_obs, obs)])
+    case["klass"] = "dosini:st%d:plats%d:vf%d:dupvf%d:plat%d:obs%d" % (
+        n_stages, len(plats), len(varfiles), int(len(order) != len(set(order))), int(case["platform"] is not None),
+        len(case["streams"]))
     return case
 
 
 def gen_case(r: random.Random, index: int) -> Dict[str, Any]:
     kind = ["flowir", "dsl", "flowir", "dsl", "dosini"][index % 5]
-    case = {"flowir": gen_flowir, "dsl": gen_dsl, "dosini": gen_dosini}[kind](r)
+    if kind == "dsl":
+        case = gen_dsl(r)
+    else:
+        # every other FlowIR / DOSINI package is guaranteed to carry a repeating component with archived streams
+        case = {"flowir": gen_flowir, "dosini": gen_dosini}[kind](r, force_repeat=(index % 10 < 5))
     case["index"] = index
     return case
 
